@@ -1,5 +1,6 @@
 #include "contract.h"
 TERM_GHOST_DEFS
+int g_wx;
 int e_i[32]; int g_node[16]; int g_fid[8];
 int g_throw, g_debug, g_vec_alloc; unsigned g_errors, g_error_bits; size_t g_alloc_bytes;
 long long g_step_rel, g_step_abs; int g_sim_continuing, g_sim_running;
@@ -15,7 +16,7 @@ void h_abf_update(void) { init(); _Bool *en; int *bin, *fb; size_t n = nondet_si
   k_abf_update(en, n, bin, fb, nondet_bool());
   if (g_nacc == 1 && g_ncbf == 1 && n == 2) __CPROVER_assert(0, "canary: accumulate and apply in one step reachable (2 variables)");
   if (g_nacc == 0 && g_ncbf == 0) __CPROVER_assert(0, "canary: idle step reachable"); }
-void h_calc_biasing_force(void) { init(); _Bool *en; size_t n = nondet_size_t(); _Bool p = nondet_bool(), c = nondet_bool();
+void h_calc_biasing_force(void) { init(); g_wx = nondet_int(); _Bool *en; size_t n = nondet_size_t(); _Bool p = nondet_bool(), c = nondet_bool();
   k_calc_biasing_force(en, n, p, c);
   if (n == 1 && p && c && g_top(g_node[10]) == T_MUL) __CPROVER_assert(0, "canary: capped negative periodic force reachable");
   if (n == 2) __CPROVER_assert(0, "canary: two variables reachable"); }
